@@ -94,15 +94,25 @@ def _chunk(args):
         if r.violation is not None and len(viols) < 8:
             viols.append({'i': i, 'violation': r.violation, 'ops': r.ops})
     faulthandler.cancel_dump_traceback_later()
-    return {'start': start, 'count': count, 'steps': steps, 'stats': dict(stats), 'sigs': sigs,
-            'states': states, 'tris': tris, 'viols': viols, 'digest': digests.hexdigest(),
+    import numpy as np
+    as_u64 = lambda xs: np.unique(np.fromiter((x & 0xFFFFFFFFFFFFFFFF for x in xs), dtype=np.uint64, count=len(xs)))
+    return {'start': start, 'count': count, 'steps': steps, 'stats': dict(stats), 'sigs': as_u64(sigs),
+            'states': as_u64(states), 'tris': as_u64(tris), 'viols': viols, 'digest': digests.hexdigest(),
             'nontrivial': nontrivial, 'samples': samples, 'cfg': dict(cfg), 'herr': first_herr}
 
 
 def run_batch(prop, verif_seed, runs, workers, cap, banned=(), start=0, tier='quick'):
     tasks = [(prop, verif_seed, s, min(CHUNK, start + runs - s), tuple(banned), tier)
              for s in range(start, start + runs, CHUNK)]
-    return forked(_chunk, tasks, workers, cap)
+    t0 = time.time()
+    marks = set()
+
+    def progress(done, total):
+        pct = done * 10 // total
+        if total >= 400 and pct not in marks:      # only long batches report progress (to stderr)
+            marks.add(pct)
+            eprint('  ... %d%% of %d runs after %.0fs' % (pct * 10, runs, time.time() - t0))
+    return forked(_chunk, tasks, workers, cap, progress)
 
 
 # ------------------------------------------------------------------------------------ known findings
@@ -351,21 +361,25 @@ def check(prop, tier, args):
 
 
 def aggregate(chunks):
-    agg = {'runs': 0, 'steps': 0, 'stats': collections.Counter(), 'sigs': set(), 'states': set(),
-           'tris': set(), 'viols': [], 'nontrivial': 0, 'samples': [], 'cfg': collections.Counter()}
+    import numpy as np
+    agg = {'runs': 0, 'steps': 0, 'stats': collections.Counter(), 'sigs': [], 'states': [],
+           'tris': [], 'viols': [], 'nontrivial': 0, 'samples': [], 'cfg': collections.Counter()}
     h = hashlib.sha256()
     for c in sorted(chunks, key=lambda c: c['start']):
         agg['runs'] += c['count']
         agg['steps'] += c['steps']
         agg['stats'].update(c['stats'])
         agg['cfg'].update(c['cfg'])
-        agg['sigs'] |= c['sigs']
-        agg['states'] |= c['states']
-        agg['tris'] |= c['tris']
+        for k in ('sigs', 'states', 'tris'):
+            agg[k].append(c[k])
+            if len(agg[k]) >= 256:      # keep the working set small: merge and de-duplicate as we go
+                agg[k] = [np.unique(np.concatenate(agg[k]))]
         agg['viols'].extend(c['viols'])
         agg['nontrivial'] += c['nontrivial']
         agg['samples'].extend(c['samples'])
         h.update(c['digest'].encode())
+    for k in ('sigs', 'states', 'tris'):
+        agg[k] = np.unique(np.concatenate(agg[k])) if agg[k] else np.zeros(0, dtype=np.uint64)
     agg['digest'] = h.hexdigest()
     agg['herr'] = next((c['herr'] for c in sorted(chunks, key=lambda c: c['start']) if c.get('herr')), None)
     return agg
